@@ -6,6 +6,7 @@
 //	amqp/readers_writers.go          -> Codec/gen/TagsGen.v     (field-value tag tables of both dialects, both
 //	                                     directions, err-test polarity, allocation shapes of the length readers)
 //	amqp/constants_generated.go (+ext)-> Codec/gen/ConstGen.v   (frame constants, reply codes, class/method ids)
+//	amqp/types.go (Message.Marshal/Unmarshal) -> Codec/gen/RecordsGen.v (delivery-count trailer written / read)
 //	protocol/amqp0-9-1.extended.xml  -> Codec/gen/SpecGen.v     (the grammar: classes, methods, fields resolved to
 //	                                     base types, synchronous, content, chassis, responses, constants)
 //
@@ -30,6 +31,9 @@ func genCodec(c *trlib.Ctx) error {
 		return err
 	}
 	if err := genTags(c); err != nil {
+		return err
+	}
+	if err := genRecords(c); err != nil {
 		return err
 	}
 	return genConsts(c)
